@@ -63,6 +63,10 @@ def may_panic(prog, path):
     return any(r.search(path) for r in MAY_PANIC_RE)
 
 
+def _utf8_len(cp):
+    return 1 if cp < 0x80 else 2 if cp < 0x800 else 3 if cp < 0x10000 else 4
+
+
 _LOOPY = {}
 
 
@@ -383,6 +387,16 @@ class TotalWorld(OracleWorld):
         lo_t, hi_t = ip.int_range(tyname)
         proved = False
         res = None
+        if base == "Add" and isinstance(a, Sym) and isinstance(b, I):
+            # `pos + c.len_utf8()` for the character c that starts at byte offset pos: the next char boundary
+            bs, k = lin_parts(a)
+            chn = st.facts.get(("char-at", bs)) if k == 0 and isinstance(bs, tuple) and bs[0] == "byteoff" else None
+            if chn is not None:
+                r = rng_get(st, Sym(chn, "char"))
+                if _utf8_len(r[0][0]) == _utf8_len(r[-1][1]) == b.v:
+                    nxt = Sym(("byteoff", bs[1], ("after", bs[2])), a.ty)
+                    st.facts[("le", nxt.name, ("len", bs[1]))] = True
+                    return Tup((nxt, ip.boolean(False)))
         if isinstance(a, Sym) and isinstance(b, I):
             bs, k = lin_parts(a)
             if base == "Sub":
@@ -567,7 +581,9 @@ class TotalWorld(OracleWorld):
             tag = self.tag_of(it.data[0])
             idx = Sym(("byteoff", tag, self.n(st)), "usize")
             st.facts[("le", idx.name, ("len", tag))] = True
-            return Tup((idx, Sym(("ch", self.n(st)), "char")))
+            ch = Sym(("ch", self.n(st)), "char")
+            st.facts[("char-at", idx.name)] = ch.name  # the character that starts at this byte offset
+            return Tup((idx, ch))
         if isinstance(it, Opq) and it.kind == "enumerate":
             tag = self._iter_tag(m, st, it)
             idx = Sym(("charidx", tag, self.n(st)), "usize")
@@ -690,6 +706,12 @@ class TotalWorld(OracleWorld):
                 self.finding(st, "slice-bound", "str slice %s bound is %s: not a byte offset of the sliced string (may fall inside a multi-byte character or beyond the end)" % (nm, PROV_WORDS.get(p[0], p[0])))
         key = lambda b: ("int", 0) if b is None else (("int", b.v) if isinstance(b, I) else ("val", b))
         return Str(("slice", tag, key(lo), key(hi) if hi is not None else ("end",)))
+
+    def replace_range(self, m, st, s, rng, content, callee):
+        """String::replace_range panics unless both bounds are char boundaries: the same obligation as slicing.
+        Afterwards the string is a different one: offsets taken before no longer speak about it."""
+        self.str_slice(m, st, s, rng, callee)
+        return Str(("fresh", ("replaced", self.n(st))))
 
     def char_from_u32(self, m, st, v):
         if self.decide(st, "from_u32", ["None", "Some"]) == "None":
